@@ -10,6 +10,29 @@ from tir import strip, declared, callee
 ORDER = ["peppi.json", "metadata.json", "start.json", "start.raw", "end.json", "end.raw", "gecko_codes.raw", "frames.arrow"]
 GUARD = {"end.json": "game.end", "end.raw": "game.end", "gecko_codes.raw": "game.gecko_codes", "frames.arrow": "game.frames.id.len()"}
 NONDET = ("std::time::", "std::env::", "rand::", "std::collections::HashMap", "std::collections::hash_map", "std::process::id", "std::thread::current", "getrandom")
+# state that outlives one call (thread-locals, statics with interior mutability): output would depend on earlier calls
+AMBIENT = ("std::thread::LocalKey", "std::thread::local_impl", "std::sync::atomic::", "std::sync::Mutex", "std::sync::RwLock", "std::sync::OnceLock", "std::sync::LazyLock", "std::sync::Once::",
+           "std::cell::OnceCell", "std::cell::LazyCell")
+
+
+def ambient_state(F, G, R):
+    """uses of call-outliving state in the local fns R: calls into thread-local / lock / atomic / once APIs, and mentions of
+    `static` items (a `static` of a type without interior mutability is a constant and is not reported)"""
+    out = []
+    ext = G.external_calls(R)
+    for c in sorted(ext):
+        if any(x in c for x in AMBIENT):
+            o, t = ext[c][0]
+            out.append((o, c, reach.spstr(t.get("sp"))))
+    for b in F.fn_bodies():
+        if reach.owner_of(b["path"]) not in R:
+            continue
+        for n in tir.walk(b["tir"]["value"]):
+            if n.get("k") == "Path" and n.get("res") == "def" and (n.get("dk") or "").startswith("Static"):
+                ty = n.get("ty") or ""
+                if "mut" in (n.get("dk") or "").lower() or any(x in ty for x in ("Cell<", "Mutex<", "RwLock<", "Atomic", "OnceLock<", "LazyLock<", "LocalKey<")):
+                    out.append((b["path"], "static %s: %s" % (n.get("path"), ty[:60]), tir.sp(n)))
+    return out
 
 
 def order_rule(F, rep):
@@ -84,6 +107,9 @@ def determinism_rule(F, rep):
     ext = G.external_calls(R)
     bad = sorted(c for c in ext if any(x in c for x in NONDET))
     rep.ob("deterministic", not bad, peppifmt.WRITE, "nondeterminism", "the writer's reachable set calls %s" % bad[:4])
+    amb = ambient_state(F, G, R)
+    rep.ob("deterministic.no-ambient-state", not amb, peppifmt.WRITE, "ambient-state",
+           "the writer's reachable set keeps state across calls (%s): the bytes written for a game would depend on what was written before" % "; ".join("%s in %s @ %s" % (c, reach.short(o), sp) for o, c, sp in amb[:3]))
     rep.counts["writer_reachable_fns"] = len(R)
     # the tar header is built from constant/derived values only
     helpers = peppifmt.append_helpers(F)
